@@ -124,7 +124,7 @@ class Sim:
             ft = {"type": "oserror", "errno": "ENOSPC"}
         if t == "adversary" and not (isinstance(path, str) and kind.startswith(("os.", "open"))):
             return None
-        self.fired.append((self.op, kind, f.get("site", "*"), t))
+        self.fired.append((self.op, kind, f.get("site", "*"), t, self.canon(path) if path is not None else None))
         self.emit("fault", t, kind, ft.get("errno") or ft.get("cls") or ft.get("action"))
         if t == "oserror":
             en = ERRNOS[ft.get("errno", "EIO")]
